@@ -69,9 +69,16 @@ Definition json_of (v : value) : outcome bstr := json_value (S (depth v)) v.
 
 (* directiveJson / directiveEscapeJsString under evalPrint's wrapper (the panic of directiveJson on a
    Marshal error is the [Err]); both ignore their arguments *)
-Definition dir_json (v : value) (_ : list value) : outcome value := s <- json_of v ;; Ok (VStr s).
-Definition dir_escape_js (v : value) (_ : list value) : outcome value :=
-  s <- value_string v ;; Ok (VStr (js_escape is_print_tbl s)).
+Definition dir_json (v : option value) (_ : list value) : outcome (option value) :=
+  match v with
+  | None => Ok (Some (VStr s_null))               (* json.Marshal(nil) *)
+  | Some x => s <- json_of x ;; Ok (Some (VStr s))
+  end.
+Definition dir_escape_js (v : option value) (_ : list value) : outcome (option value) :=
+  match v with
+  | None => Err e_nilresult
+  | Some x => s <- value_string x ;; Ok (Some (VStr (js_escape is_print_tbl s)))
+  end.
 
 Definition x_dirs (name : bstr) : option dir_entry :=
   match lookup_directive name with
